@@ -273,6 +273,11 @@ func checkC15(c *Check) {
 	}
 	delete(c.Expects, c.ID+".3/ban-return-value")
 	c.Expect("5/unknown-syscall", 5)
+
+	// the end of the main process always ends the run with its verdict: no path of the wait-status handler drops the
+	// report (the wait loop would then wait for a child that is gone: ECHILD, Runner Error) — the tables of C09.1
+	importObs(c, "C09", "C09.1/classifier-table", "6/main-end-ends-run", func(o Obligation) bool { return strings.HasPrefix(o.Key, "ptracer.") })
+	c.Expect("6/main-end-ends-run", 69)
 }
 
 func describeInstr(in ssa.Instruction) string {
